@@ -102,10 +102,15 @@ def cases(tier):
                 out.append(dict(route='api', d=D(mod(c1, mod(c2, a, b), c))))
                 out.append(dict(route='api', d=D(mod(c1, a, mod(c2, b, c)))))
     if tier != 'quick':
-        s4 = [x for x in L if x[0] in ('morse', 'polynomial', 'py_plain', 'const_int')]
+        s4 = [x for x in L if x[0] in ('morse', 'polynomial', 'py_plain', 'const_int', 'py_deriv', 'table')]
         for c1, c2, c3 in itertools.product(('sum', 'product', 'pow'), repeat=3):
             for a, b, c, d in itertools.product(s4, repeat=4):
                 out.append(dict(route='api', d=D(mod(c1, mod(c2, a[1], b[1]), mod(c3, c[1], d[1])))))
+        # left- and right-leaning chains of depth 3 over the same six leaves
+        for c1, c2, c3 in itertools.product(('sum', 'product', 'pow'), repeat=3):
+            for a, b, c, d in itertools.product(s4[:5], repeat=4):
+                out.append(dict(route='api', d=D(mod(c1, mod(c2, mod(c3, a[1], b[1]), c[1]), d[1]))))
+                out.append(dict(route='api', d=D(mod(c1, a[1], mod(c2, b[1], mod(c3, c[1], d[1]))))))
     # powers of powers, composed directly: the magnitude idiom (f^2)^0.5 with f changing sign, (f^2)^1.5, (f^4)^0.25
     Ld = dict((n_, it_) for n_, it_, _l in L)
     for fname in ('poly_neg', 'polynomial', 'morse', 'py_deriv'):
